@@ -4,6 +4,7 @@ namespace MayVerif.Park
 set_option maxHeartbeats 1000000 in
 theorem inv_stepK0 (s s' : St) (h : Inv s) (hg : kgrp s.kpc = 0) (hs : stepK s = some s') : Inv s' := by
   have hppc : s.kpc = .k4r → s.ppc = .u3wait := fun hk => h.u3 (Or.inr (Or.inr (Or.inl (h.heldK.mpr hk))))
+  have hppc2 : s.kpc = .k2r → s.ppc = .u3wait := fun hk => h.u3 (Or.inr (Or.inr (Or.inr (Or.inr (Or.inl (h.heldKt.mpr hk))))))
   have hnd : s.kpc ≠ .kidle → s.dropped = false := by
     intro hk; cases hd : s.dropped
     · rfl
@@ -14,6 +15,7 @@ theorem inv_stepK0 (s s' : St) (h : Inv s) (hg : kgrp s.kpc = 0) (hs : stepK s =
   cases hk : s.kpc <;> simp only [hk, reduceCtorEq] at hs <;> simp only [hk, kgrp, reduceCtorEq] at hg <;> (try omega)
   all_goals (try (have hd0 := hnd (by simp [hk])))
   all_goals (try (have hp3 := hppc hk))
+  all_goals (try (have hp3 := hppc2 hk))
   all_goals (try (split at hs)) <;> simp only [Option.some.injEq] at hs <;> subst hs
   all_goals (constructor <;> (try simp only [sched]) <;> (try simp only [resume, hp3]) <;> (try dsimp only []) <;> grind)
 
